@@ -735,3 +735,118 @@ def c20_cli(ctx, broken):
     return {"summary": {"evaluations": evals, "nontrivial": nontriv,
                         "what": "hooked log_likelihood/grad_ll vs the model's Float instance and vs central finite differences; hooked find_cutoff vs model; CoverageHistogram on generated read pairs (multiplicities, table, cutoff, labels) in-process and through `ska cov`"},
             "samples": samples}
+
+
+# ----------------------------------------------------------------------------- C03
+
+def canon_arms(win, rc):
+    h = len(win) // 2
+    arms = win[:h] + win[h + 1:]
+    a = pack(arms)
+    if rc:
+        b = pack(revcomp(arms))
+        return (min(a, b), a > b, a == b)
+    return (a, False, False)
+
+
+def repeat_free(seqs, k, rc):
+    """every canonical arm key occurs at one coordinate only (over all samples), never self-rc"""
+    seen = {}
+    for s in seqs:
+        for ci, contig in enumerate(s):
+            for j in range(len(contig) - k + 1):
+                key, _, pal = canon_arms(contig[j:j + k], rc)
+                if pal:
+                    return False
+                if seen.setdefault(key, (ci, j)) != (ci, j):
+                    return False
+    return True
+
+
+def c03_cli(ctx, broken):
+    """planted isolated-SNP families through `ska build` + `ska align --min-freq 1`"""
+    rnd = random.Random(ctx.seed * 67867967 + 53)
+    thorough = ctx.tier == "thorough"
+    nfam = 300 if thorough else 30
+    evals = nontriv = 0
+    samples = []
+    tries = 0
+    while evals < nfam and tries < 40 * nfam:
+        tries += 1
+        k = rnd.choice(list(range(5, 64, 2)) if thorough else [5, 7, 9, 11, 15, 17, 21, 31, 33, 41, 63])
+        h = (k - 1) // 2
+        nsamp = rnd.randint(2, 10)
+        # small k needs short contigs to be repeat free
+        maxlen = {5: 14, 7: 40, 9: 120}.get(k, 300)
+        ncontig = rnd.randint(1, 3)
+        anc = [rand_genome(rnd, rnd.randint(k, max(k + 1, maxlen))) for _ in range(ncontig)]
+        fam = [[list(c) for c in anc] for _ in range(nsamp)]
+        sites = []
+        for ci, c in enumerate(anc):
+            p = h + rnd.choice([0, 0, 1, rnd.randint(0, h)])
+            while p + h < len(c):
+                if rnd.random() < 0.7:
+                    alleles = rnd.sample([x for x in "ACGT" if x != c[p]], rnd.randint(1, 2))
+                    assign = [rnd.choice([c[p]] + alleles) for _ in range(nsamp)]
+                    if len(set(assign)) > 1:
+                        for si in range(nsamp):
+                            fam[si][ci][p] = assign[si]
+                        sites.append((ci, p))
+                p += h + 1 + rnd.choice([0, 0, 1, rnd.randint(0, k)])   # > h apart, boundary distance h+1 often
+        seqs = [["".join(c) for c in s] for s in fam]
+        rc = rnd.random() < 0.7
+        if not repeat_free(seqs, k, rc):
+            continue
+        d = fresh_dir(ctx, "c03cli")
+        files = []
+        for si, s in enumerate(seqs):
+            recs = list(s)
+            order = list(range(len(recs)))
+            rnd.shuffle(order)
+            recs = [recs[i] for i in order]
+            if rc:
+                recs = [revcomp(r) if rnd.random() < 0.4 else r for r in recs]
+            f = os.path.join(d, f"s{si}.fa")
+            write_fasta(f, recs)
+            files.append(f)
+        args = ["build", "-o", os.path.join(d, "x"), "-k", str(k)] + ([] if rc else ["--single-strand"]) + files
+        code, out, err = ska(args, d)
+        if code != 0:
+            return {"summary": {"evaluations": evals, "nontrivial": nontriv}, "violation": {"kind": "c03-family", "what": "build failed", "stderr": err[-300:], "k": k, "family": seqs}}
+        code, out, err = ska(["align", os.path.join(d, "x.skf"), "--min-freq", "1"], d)
+        evals += 1
+        if code != 0:
+            return {"summary": {"evaluations": evals, "nontrivial": nontriv}, "violation": {"kind": "c03-family", "what": "align failed", "stderr": err[-300:], "k": k, "family": seqs}}
+        names = [l[1:] for l in out.splitlines() if l.startswith(">")]
+        aseqs = [l for l in out.splitlines() if not l.startswith(">")]
+        while len(aseqs) < len(names):
+            aseqs.append("")
+        lens = set(len(x) for x in aseqs)
+        cols = sorted("".join(x[i] for x in aseqs) for i in range(len(aseqs[0]))) if aseqs and aseqs[0] else []
+        comp = str.maketrans("ACGT", "TGCA")
+        def norm(col):
+            return min(col, col.translate(comp))
+        want = sorted(norm("".join(fam[si][ci][p] for si in range(nsamp))) for (ci, p) in sites)
+        got = sorted(norm(c) for c in cols)
+        ok = (names == [f"s{i}" for i in range(nsamp)] and len(lens) == 1 and got == want
+              and (rc or sorted(cols) == sorted("".join(fam[si][ci][p] for si in range(nsamp)) for (ci, p) in sites)))
+        if sites:
+            nontriv += 1
+        if len(samples) < 2 and sites:
+            samples.append({"k": k, "rc": rc, "samples": nsamp, "contigs": [len(c) for c in anc], "sites": sites[:8], "columns": cols[:8]})
+        if not ok:
+            return {"summary": {"evaluations": evals, "nontrivial": nontriv},
+                    "violation": {"kind": "c03-family", "what": "alignment is not exactly the planted SNP columns", "k": k, "rc": rc, "sites": sites,
+                                  "expected": want, "observed": got, "names": names, "family": seqs}}
+        # the default-k path: `ska align <fastas>` builds with k=17, both strands
+        if k == 17 and rc:
+            code, out2, err = ska(["align"] + files + ["--min-freq", "1"], d)
+            evals += 1
+            a2 = [l for l in out2.splitlines() if not l.startswith(">")]
+            c2 = sorted(norm("".join(x[i] for x in a2)) for i in range(len(a2[0]))) if a2 and a2[0] else []
+            if code != 0 or c2 != want:
+                return {"summary": {"evaluations": evals, "nontrivial": nontriv},
+                        "violation": {"kind": "c03-family", "what": "`ska align <fastas>` differs from the planted SNP columns", "k": k, "sites": sites, "family": seqs}}
+    return {"summary": {"evaluations": evals, "nontrivial": nontriv, "families_rejected_by_repeat_check": tries - evals,
+                        "what": "repeat-free ancestors (checked), isolated substitutions at the exact boundary distances, 2-10 samples, 1-3 contigs permuted / reverse-complemented per sample; expected = exactly the planted columns up to complementing a column; names in input order; equal lengths"},
+            "samples": samples}
